@@ -49,6 +49,13 @@ CHECKS.update({
                "Lean 4 proof + counterexample theorems + differential correspondence incl. source-value sweeps", "6/C18"),
 })
 
+CHECKS.update({
+    "C04": chk("Proof: burst_changes_register / burst_detected_bits — two bit streams that agree outside a window of at most 16 bits and differ inside it drive the CRC register to different values from any state (XOR-linearity, leading-bit invariant of the reflected polynomial, injectivity of the zero-input step); burst_detected_bytes (any corruption of one or two adjacent bytes), residue_broken (a stream with residue 0 has a non-zero residue after such a burst); header_crc_agreement (Header.CheckIntegrity and decodeHeader accept or reject the same header values). The link 'Decode/CheckIntegrity accept ⇒ residue of the frame is 0' is checked by the correspondence and the burst sweep (every start bit of the sampled files), its Lean proof is pending." + CORR,
+               "Lean 4 proof (GF(2)-linearity of the shift register over BitVec 16) + header sweep + burst sweep against the real entry points", "6/C04"),
+    "C17": chk("Proof (integer part kernel-only; float step under an explicit rounding hypothesis): lat_invalid_iff_partial with lat_pole_counterexample (known finding D14: +90° flagged invalid), lng_invalid_iff, semicircles_id, degrees_exact (|s·180| < 2^53 so the float64 product is exact), time_bijection, time_roundtrip, base_time_iff, from_degrees_within_one (two roundings of relative error ≤ 2^-53 followed by truncation stay within one semicircle; the IEEE-754 standard model is a hypothesis of the theorem). The printed-form clause is checked by enumeration only." + CORR,
+               "Lean 4 proof (omega; Mathlib linarith/floor lemmas for the rational bound) + Go-side oracle over all 2^32 values (thorough) with model cross-check", "6/C17"),
+})
+
 NOT_YET = {}
 
 def main():
